@@ -265,6 +265,7 @@ inductive Outcome
   | refused      -- `EupsException`
   | notFound     -- `ProductNotFound`
   | failed       -- `RuntimeError` (`remove`: the directory is not there any more)
+  | tableMissing -- `TableFileNotFound` (`remove --recursive` reads the table of the product)
   deriving DecidableEq, Repr
 
 /-- A running command: where it started, and what it has done so far. -/
@@ -496,14 +497,17 @@ def undeclare (nst : Nat) (a : UndeclareArgs) (p : Proc) : Outcome × Proc :=
 
 /-! ## `Eups.remove`, one product -/
 
-/-- `Eups.remove(name, version)` with `recursive=False, checkRecursive=False`: `_remove` finds the product
+/-- `Eups.remove(name, version, recursive)` with `checkRecursive=False`: `_remove` finds the product
 (native flavor, whole path), `undeclare(name, version)` undeclares it, then the directory goes — or, in a
 dry run, "rm -rf" is printed.  (The recursive collection and the in-use check are C14's `Remove` model; this
 is its per-product step.) -/
-def remove (nst : Nat) (self : Flav) (n : Name) (v : Ver) (noaction : Bool) (p : Proc) : Outcome × Proc :=
+def remove (nst : Nat) (self : Flav) (n : Name) (v : Ver) (recursive noaction : Bool) (p : Proc) :
+    Outcome × Proc :=
   match p.mem.findIn (allStacks nst) n v self with
   | none => (.notFound, p)
   | some prod =>
+    -- `recursive`: `_remove` reads `product.getTable()` (the universes' tables declare no dependencies)
+    if recursive && prod.table == .default && !(p.tableExists prod.dir n) then (.tableMissing, p) else
     match undeclare nst ⟨self, n, some v, none, none, false, noaction⟩ p with
     | (.ok, p1) =>
       if noaction then (.ok, p1) else
@@ -517,7 +521,7 @@ inductive Cmd
   | undeclare (a : UndeclareArgs)
   | assignTag (self : Flav) (t : Tag) (n : Name) (v : Ver) (stack : Option Nat)
   | unassignTag (self : Flav) (t : Tag) (n : Name) (v : Option Ver) (stack : Option Nat) (noaction : Bool)
-  | remove (self : Flav) (n : Name) (v : Ver) (noaction : Bool)
+  | remove (self : Flav) (n : Name) (v : Ver) (recursive noaction : Bool)
   | query (self : Flav)
   deriving Repr
 
@@ -535,7 +539,7 @@ def Cmd.noaction : Cmd → Bool
   | .undeclare a => a.noaction
   | .assignTag .. => false
   | .unassignTag _ _ _ _ _ na => na
-  | .remove _ _ _ na => na
+  | .remove _ _ _ _ na => na
   | .query _ => true
 
 def run (nst : Nat) (c : Cmd) (p : Proc) : Outcome × Proc :=
@@ -544,7 +548,7 @@ def run (nst : Nat) (c : Cmd) (p : Proc) : Outcome × Proc :=
   | .undeclare a => undeclare nst a p
   | .assignTag f t n v st => assignTag f t n v (stacksOf nst st) p
   | .unassignTag f t n v st na => unassignTag nst f t n v st na p
-  | .remove f n v na => remove nst f n v na p
+  | .remove f n v rc na => remove nst f n v rc na p
   | .query _ => (.ok, p)
 
 end EupsModel.Db
